@@ -161,28 +161,23 @@ def runOps (s : TdfSt) : List Op → TdfSt
 /-! independent reader: executable well-formedness / compactness predicates on raw bytes -/
 def liveOf (es : List Entry) : List Entry := es.filter (fun e => e.typ != 0)
 
-def disjointSorted : List (Int × Int) → Bool
-  | [] => true
-  | [_] => true
-  | (o1, s1) :: (o2, s2) :: rest => o1 + s1 ≤ o2 && disjointSorted ((o2, s2) :: rest)
+/-- two byte ranges do not overlap -/
+def Disjoint2 (a b : Entry) : Prop := a.off + a.size ≤ b.off ∨ b.off + b.size ≤ a.off
+instance (a b : Entry) : Decidable (Disjoint2 a b) := by unfold Disjoint2; infer_instance
 
-def insertRange (r : Int × Int) : List (Int × Int) → List (Int × Int)
-  | [] => [r]
-  | x :: xs => if r.1 ≤ x.1 then r :: x :: xs else x :: insertRange r xs
-def sortRanges (l : List (Int × Int)) : List (Int × Int) := l.foldr insertRange []
+/-- C03 on a parsed table: every live range lies after the table and inside the file, live ranges
+    are pairwise disjoint, unused slots have size zero -/
+def WFTable (n flen : Nat) (es : List Entry) : Prop :=
+  (∀ e ∈ liveOf es, (64 + 288 * n : Int) ≤ e.off ∧ 0 ≤ e.size ∧ e.off + e.size ≤ flen)
+  ∧ (liveOf es).Pairwise Disjoint2
+  ∧ (∀ e ∈ es, e.typ = 0 → e.size = 0)
+instance (n flen : Nat) (es : List Entry) : Decidable (WFTable n flen es) := by unfold WFTable; infer_instance
 
-/-- C03: signature ok (parse succeeds), live ranges after the table, inside the file, pairwise
-    disjoint; unused slots have size zero -/
+/-- the executable form run on real bytes: signature ok (the parse succeeds) and `WFTable` -/
 def wfB (file : Bytes) : Bool :=
   match decTable.run file with
   | none => false
-  | some ((h, es), _) =>
-    let n := h.nEntries.toNat
-    let live := liveOf es
-    0 < n
-    && live.all (fun e => (64 + 288 * n : Int) ≤ e.off && 0 ≤ e.size && e.off + e.size ≤ file.length)
-    && disjointSorted (sortRanges (live.map (fun e => (e.off, e.size))))
-    && es.all (fun e => e.typ != 0 || e.size == 0)
+  | some ((h, es), _) => decide (WFTable h.nEntries.toNat file.length es)
 
 def compactFrom (start : Int) : List Entry → Option Int
   | [] => some start
